@@ -8,7 +8,7 @@ started has finished when execute returns, nothing started twice, nothing left b
 from simv.actors import ENGINE_CONFIGS, forget
 from simv.checks.common import COMMON_ASSUMPTIONS, base_result, exc_violation, trace_tail
 from simv.harness import cook_engine, execute_once, gen_case, make_plan, pick_scheduler, run_digest
-from simv.model.exec import enumerate_fault_sites
+from simv.model.exec import enumerate_fault_sites, same_list_fault_pair
 from simv.oracle import V, check_against_plan, check_envelope, first_diff, same
 from simv.simloop import Script, next_script
 from simv.tape import Tape
@@ -75,17 +75,21 @@ def run_one(seed, preset=None, tier="quick", want_case=False):
     ft = tape.sub("fault")
     case = gen_case(tape, doc_knobs={"max_depth": 3, "max_sel": 4, "max_ops": 2, "max_frags": 3},
                     schema_knobs={"max_objects": 4, "default_impl_pct": 10, "lag_pct": 25 if (seed % 3 == 0) else 0})
-    base = make_plan(case, tape)
+    plan_knobs = {"mid_list_pct": 6}
+    base = make_plan(case, tape, knobs=plan_knobs)
     plan = base
     faults = {}
     if not base.refused and cfgt.chance(55):
         sites = enumerate_fault_sites(base)
         if sites:
-            for _ in range(ft.weighted([(4, 1), (2, 2), (1, 3)])):
+            pair = same_list_fault_pair(base, ft) if ft.chance(40) else None
+            if pair:
+                faults.update(pair)
+            for _ in range(ft.weighted([(4, 1), (2, 2), (1, 3)]) if not pair else ft.draw(2)):
                 p, k = sites[ft.draw(len(sites))]
                 faults[p] = k
             t2 = Tape(seed, preset)
-            plan = make_plan(case, t2, faults, base=base)
+            plan = make_plan(case, t2, faults, base=base, knobs=plan_knobs)
             for k, v in t2.used.items():
                 if k.startswith("data") and len(v) > len(tape.used.get(k, ())):
                     tape.used[k] = v
